@@ -356,7 +356,7 @@ def hyperu(a, b, x, out=None, n=0):
 @basecase(scipy.special.erf)
 def erf(x, out=None, n=0):
     a = 2 * np_recip_sqrt_pi * np.exp(-np.square(x))
-    b = np.zeros_like(x)
+    b = np.zeros_like(x, dtype=np.result_type(x, float))
     # the terms with 2*k + 2 - n <= 0 vanish (poch of a non-positive integer);
     # skipping them avoids 0 * inf = nan at x = 0
     for k in range(n // 2, n):
@@ -369,7 +369,7 @@ def erf(x, out=None, n=0):
 @basecase(np_erfi)
 def erfi(x, out=None, n=0):
     a = 2 * np_recip_sqrt_pi * np.exp(np.square(x))
-    b = np.zeros_like(x)
+    b = np.zeros_like(x, dtype=np.result_type(x, float))
     # the terms with 2*k + 2 - n <= 0 vanish (poch of a non-positive integer);
     # skipping them avoids 0 * inf = nan at x = 0
     for k in range(n // 2, n):
@@ -411,7 +411,7 @@ def expm1(x, out=None, n=0):
 
 @basecase(np.log, domain=DOM_POS)
 def log(x, out=None, n=0):
-    out = np.power(x, -n, out)
+    out = np.power(x, -float(n), out)
     out *= pow(-1, n-1) * math.factorial(n-1)
     return out
 
@@ -429,7 +429,7 @@ def log10(x, out=None, n=0):
 
 @basecase(np.log1p, domain=DOM_GT_NEG_1)
 def log1p(x, out=None, n=0):
-    out = np.power(1 + x, -n, out)
+    out = np.power(1 + x, -float(n), out)
     out *= pow(-1, n-1) * math.factorial(n-1)
     return out
 
@@ -457,7 +457,7 @@ def negative(x, out=None, n=0):
 
 @basecase(np.reciprocal)
 def reciprocal(x, out=None, n=0):
-    out = np.power(x, -(n+1), out)
+    out = np.power(x, -float(n+1), out)
     out *= math.factorial(n) * pow(-1, n)
     return out
 
@@ -532,7 +532,7 @@ def arccosh(x, out=None, n=0):
 
 @basecase(np.arctanh, domain=DOM_ABS_LT_1)
 def arctanh(x, out=None, n=0):
-    out = np.add(pow(1 - x, -n), pow(-1, n-1) * pow(x+1, -n), out)
+    out = np.add(np.power(1 - x, -float(n)), pow(-1, n-1) * np.power(x+1, -float(n)), out)
     out *= 0.5 * math.factorial(n-1)
     return out
 
